@@ -164,7 +164,7 @@ def is_json(v: V) -> bool:
 
 
 def wf_node(n: V) -> bool:
-    return isinstance(n, JSONPathNode) and is_tuple(n.location) and is_json(n.value)
+    return isinstance(n, JSONPathNode) and is_tuple(n.location) and is_json(n.value) and is_json(n.root)
 
 
 # ---- filter selector (2.3.5): children whose filter expression is true ------
